@@ -30,7 +30,7 @@ import (
 	"github.com/dolthub/dolt/go/zzverif/vh"
 )
 
-const c04Rule = "journals come from rapid-drawn write histories (same generator as C03; maxNovel in {1,2,4,16} so 1..20 index batches; clean close). Index variants: absent, empty, truncation at every record boundary (and +-1 around a sample, random points; every byte in thorough), per batch: start/end/root/checksum field corruptions (bit flips, off-by-one, values of other batches, other root records, beyond EOF), lookup address flips with and without recomputed batch checksum, lookup offset/length corruptions, tag bytes, lookup swaps, batch drop/duplicate/reorder, stale on-disk indexes of earlier steps, the index of a second history, zeroed windows, appended garbage, random bytes. Each variant is opened read-write or read-only and compared with the index-free open of the same directory. One evidence case per (journal, variant, mode). Non-trivial: the variant parses (own walker) into >= 1 complete batch and is not a prefix of the honest index, i.e. syntactically valid and wrong in content; distinct by journal hash + variant description."
+const c04Rule = "journals come from rapid-drawn write histories (same generator as C03; maxNovel in {1,2,4,16} so 1..20 index batches; clean close). Index variants: absent, empty, truncation at every record boundary (and +-1 around a sample, random points; in thorough +-1 around every record and every byte of indexes up to 1200 B), per batch: start/end/root/checksum field corruptions (bit flips, off-by-one, values of other batches, other root records, beyond EOF), lookup address flips with and without recomputed batch checksum, lookup offset/length corruptions, tag bytes, lookup swaps, batch drop/duplicate/reorder, stale on-disk indexes of earlier steps, the index of a second history, zeroed windows, appended garbage, random bytes. Each variant is opened read-write or read-only and compared with the index-free open of the same directory. One evidence case per (journal, variant, mode). Non-trivial: the variant parses (own walker) into >= 1 complete batch and is not a prefix of the honest index, i.e. syntactically valid and wrong in content; distinct by journal hash + variant description."
 
 const (
 	c04LookupSz = 1 + 16 + 8 + 4
@@ -113,7 +113,7 @@ func c04Variants(h *verifJHist, otherIdx []byte, seed uint64) []c04Variant {
 			cutSet[rc.off+9], cutSet[rc.off+17], cutSet[rc.off+21] = true, true, true
 		}
 	}
-	if vh.Thorough() && len(X) <= 6000 {
+	if vh.Thorough() && len(X) <= 1200 {
 		for i := range X {
 			cutSet[i] = true
 		}
@@ -680,5 +680,5 @@ func TestVerif_C04(t *testing.T) {
 	base, cleanup := vh.ScratchDir(t, "c04-")
 	defer cleanup()
 	t.Run("pinned", func(t *testing.T) { c04Pinned(t, base) })
-	vh.Check(t, "index_variants", 8, 20, func(rt *rapid.T) { c04Case(rt, rec, base) })
+	vh.Check(t, "index_variants", 8, 8, func(rt *rapid.T) { c04Case(rt, rec, base) })
 }
